@@ -39,7 +39,7 @@ pub const LITERALS: &[&str] = &[
     "'01jan2020:12:00'dt", "'my var'n", "'0101'b", "'4142'x", "'41,42'x", "'4'x", "'g1'x",
     "\"4142\"x", "\"a\"d", "\"a\"dt", "\"a\"n", "\"a\"t", "\"a\"b", "\"&a\"", "\"&a.b\"",
     "\"%m(1)\"", "\"a&b\"\"c\"", "\"%let x=1;\"", "'", "\"", "'a", "\"a", "\"&a", "'a''",
-    "\"a\"\"", "\"% \"\"a\"", "\"&& \"\"a\"", "'+1'x", "'-1'x", "\"+1\"x", "''x", "'é'x",
+    "\"a\"\"", "\"% \"\"a\"", "\"&& \"\"a\"", "'+1'x", "'-1'x", "\"+1\"x", "''x", "'é'x", "'0D0O'x", "'53,41,5'x", "\"534G\"x", "'09'x", "\"0d0a\"x",
 ];
 
 pub const NUMERICS: &[&str] = &[
@@ -52,7 +52,7 @@ pub const NUMERICS: &[&str] = &[
 pub const AMPS: &[&str] = &[
     "&a", "&&a", "&&&a", "&&&&a", "&&&&&a", "&&&&&&&a", "&&&&&&&&a", "&&&&&&&&&a", "&a.", "&a..b",
     "&&a&b", "&&a&b..c", "&a&b", "&a.&b.", "&", "&&", "&&&", "& a", "&1", "&é", "&_", "&a%b",
-    "&&&&&&&&&&&&&&&&a", "&a&&", "&&a&&&b.",
+    "&&&&&&&&&&&&&&&&a", "&a&&", "&&a&&&b.", "&a& b", "&a&1", "&lib..sales", "&yr.q1", "&&p&i..x", "&a&) ",
 ];
 
 pub const PERCENTS: &[&str] = &[
